@@ -243,7 +243,9 @@ class Lock:
         if self.reentrant and self.owner is me:
             self.depth += 1
             return True
+        me.meta["want_lock"] = self
         SCHED.park(("lock", self.label or "lock"), cond=lambda: self.owner is None)
+        me.meta["want_lock"] = None
         self.owner, self.depth = me, 1
         me.meta["locks"] = me.meta.get("locks", 0) + 1
         return True
@@ -403,6 +405,20 @@ class Socket:
             raise BrokenPipeError(32, "Broken pipe")
         self.sent.append((SCHED.clock, bytes(data)))
         SCHED.event("sent", bytes(data))
+
+    def send(self, data):
+        """a single write(2): may be partial (at most 64 KiB are taken per call, like a full socket buffer)"""
+        SCHED.park(("send", data))
+        self.nwrites += 1
+        if self.closed:
+            raise OSError(9, "Bad file descriptor")
+        if self.fail_write_at is not None and self.nwrites >= self.fail_write_at:
+            SCHED.event("send-fails", self.nwrites)
+            raise BrokenPipeError(32, "Broken pipe")
+        part = bytes(data[:65536])
+        self.sent.append((SCHED.clock, part))
+        SCHED.event("sent", part)
+        return len(part)
 
     def close(self):
         self.close_calls += 1
